@@ -49,6 +49,10 @@ def units(tier, seed):
         for j in range(2):
             descs.append(dict(engines=list(eng), gens=1 + j, gsc=gs[(k + j) % len(gs)], Mh=4, seed=s + k, levelshift=True, obj=("twofunnel", "sphere_in")[j], maximize=bool(j),
                               sprout={"kind": ("simple", "nbc")[j], "L": 2}, hib=bool(k % 2)))
+    # beyond the small scope (hmsmc/scale.py): more than 32767 evaluations on one level, local searches of hundreds of iterations
+    from ..scale import big_population_worlds, long_local_search_worlds, many_evaluation_worlds
+
+    descs += [dict(d, gsc=d.get("gsc", gs[i % len(gs)])) for i, d in enumerate(many_evaluation_worlds(tier, seed) + long_local_search_worlds(tier, seed) + big_population_worlds(tier, seed)[:4])]
     us = [{"kind": "run", "descs": c} for c in chunks(descs, 12)]
     us.append({"kind": "minimize-both", "seed": s})
     us.append({"kind": "minimize-long", "seed": s})
